@@ -5,7 +5,7 @@
     behind"); the theorems below say how much of the stream each sampler consumes ([consumes us r n]: us = pre ++ r
     with n = length pre), which is what the check compares with the state of the real std::mt19937 after the call. *)
 From Coq Require Import ZArith List Reals.
-From LP Require Import Num NumR C18_Model C18_Proofs C18_Proofs_R C18_Proofs_St C18_Proofs_StR C18_Proofs_Hist C18_Proofs_HistR C18_Proofs_StR2 C18_Proofs_Supp.
+From LP Require Import Num NumR C18_Model C18_Proofs C18_Proofs_R C18_Proofs_St C18_Proofs_StR C18_Proofs_Hist C18_Proofs_HistR C18_Proofs_StR2 C18_Proofs_Supp C18_Proofs_Wall.
 Import ListNotations.
 
 (** ** consumption, for an arbitrary number type (control flow only; valid verbatim for doubles) *)
@@ -465,3 +465,50 @@ Theorem C18_acceptance_detailed_balance_2d_bounded PDF x0 x1 y0 y1 x y :
   PDF (fst y) (snd y) * accept2 ROps PDF (Some (x0, x1, y0, y1)) y x.
 Proof. exact (acceptance_detailed_balance_2d_bounded PDF x0 x1 y0 y1 x y). Qed.
 Print Assumptions C18_acceptance_detailed_balance_2d_bounded.
+
+(** ** "returns values inside the ... requested domain": the walls.  The domain test of Sample_Metropolis(_2D) is the plain comparison of the
+    number type -- there is NO tolerance band: for EVERY number type (so verbatim for doubles) a candidate that compares below domain[0] or
+    above domain[1], by whatever amount (one unit in the last place, a relative 1e-16), has acceptance probability exactly 0; and the domain
+    is closed: a candidate on a wall or between the walls is judged by the density alone (the bounded acceptance is the unbounded one). *)
+Theorem C18_domain_test_has_no_tolerance {T : Type} (Ops : NumOps T) (PDF : T -> T) lo hi x cand :
+  nltb Ops cand lo = true \/ nltb Ops hi cand = true ->
+  accept1 Ops PDF (Some (lo, hi)) x cand = n0 Ops.
+Proof. exact (accept1_wall_any_ops Ops PDF lo hi x cand). Qed.
+Print Assumptions C18_domain_test_has_no_tolerance.
+
+Theorem C18_domain_test_has_no_tolerance_2d {T : Type} (Ops : NumOps T) (PDF : T -> T -> T) x0 x1 y0 y1 x cand :
+  nltb Ops (fst cand) x0 = true \/ nltb Ops x1 (fst cand) = true \/
+  nltb Ops (snd cand) y0 = true \/ nltb Ops y1 (snd cand) = true ->
+  accept2 Ops PDF (Some (x0, x1, y0, y1)) x cand = n0 Ops.
+Proof. exact (accept2_wall_any_ops Ops PDF x0 x1 y0 y1 x cand). Qed.
+Print Assumptions C18_domain_test_has_no_tolerance_2d.
+
+Theorem C18_domain_is_closed {T : Type} (Ops : NumOps T) (PDF : T -> T) lo hi x cand :
+  nltb Ops cand lo = false -> nltb Ops hi cand = false ->
+  accept1 Ops PDF (Some (lo, hi)) x cand = accept1 Ops PDF None x cand.
+Proof. exact (accept1_inside_any_ops Ops PDF lo hi x cand). Qed.
+Print Assumptions C18_domain_is_closed.
+
+Theorem C18_domain_is_closed_2d {T : Type} (Ops : NumOps T) (PDF : T -> T -> T) x0 x1 y0 y1 x cand :
+  nltb Ops (fst cand) x0 = false -> nltb Ops x1 (fst cand) = false ->
+  nltb Ops (snd cand) y0 = false -> nltb Ops y1 (snd cand) = false ->
+  accept2 Ops PDF (Some (x0, x1, y0, y1)) x cand = accept2 Ops PDF None x cand.
+Proof. exact (accept2_inside_any_ops Ops PDF x0 x1 y0 y1 x cand). Qed.
+Print Assumptions C18_domain_is_closed_2d.
+
+(** over the reals: every eps > 0, however small, beyond either wall; every point of [lo, hi], the walls included *)
+Theorem C18_no_tolerance_band PDF lo hi x eps : 0 < eps ->
+  accept1 ROps PDF (Some (lo, hi)) x (hi + eps) = 0 /\ accept1 ROps PDF (Some (lo, hi)) x (lo - eps) = 0.
+Proof. exact (accept1_no_tolerance_band PDF lo hi x eps). Qed.
+Print Assumptions C18_no_tolerance_band.
+
+Theorem C18_closed_domain_real PDF lo hi x y : lo <= y <= hi ->
+  accept1 ROps PDF (Some (lo, hi)) x y = accept1 ROps PDF None x y.
+Proof. exact (accept1_closed_domain PDF lo hi x y). Qed.
+Print Assumptions C18_closed_domain_real.
+
+Theorem C18_wall_example :
+  accept1 ROps (fun x => 2 * x) (Some (0, 1)) (1/2) 1 = 1 /\
+  accept1 ROps (fun x => 2 * x) (Some (0, 1)) (1/2) (1 + / 2 ^ 60) = 0.
+Proof. exact wall_example. Qed.
+Print Assumptions C18_wall_example.
